@@ -86,7 +86,19 @@ func init() {
 		"time.Now": func(m *machine, fr *frame, args []value) value {
 			return zero(m.w.prog.ImportedPackage("time").Type("Time").Type())
 		},
-		"time.Since":                  func(m *machine, fr *frame, args []value) value { return int64(0) },
+		"time.Since": func(m *machine, fr *frame, args []value) value { return int64(0) },
+		"(*sync.Once).Do": func(m *machine, fr *frame, args []value) value {
+			o := args[0].(*value)
+			if m.onces == nil {
+				m.onces = map[*value]bool{}
+			}
+			if m.onces[o] {
+				return nil
+			}
+			m.onces[o] = true
+			m.call(fr, 0, args[1], nil)
+			return nil
+		},
 		"(*sync.Mutex).Lock":          iMutexLock,
 		"(*sync.Mutex).Unlock":        iMutexUnlock,
 		"context.WithValue":           iContextWithValue,
